@@ -10,7 +10,7 @@ import util
 import c13_lib as L
 
 ID = 'C13'
-LEAN_MODULES = ['Pfst.Props.C13', 'Pfst.Props.C13Options']
+LEAN_MODULES = ['Pfst.Props.C13', 'Pfst.Props.C13Options', 'Pfst.Props.C13Fallback']
 LEAN_DEPS = ['Pfst.Reconcile', 'Pfst.ReconcileLemmas']
 THEOREMS = [
     'Pfst.C13.frame', 'Pfst.C13.fallback_overrides', 'Pfst.C13.foreign_ok_correct', 'Pfst.C13.fields_scalar_correct',
@@ -22,6 +22,9 @@ THEOREMS = [
     'Pfst.C13.no_change', 'Pfst.C13.no_change_ops', 'Pfst.C13.untouched_kept',
     # the pinned option set of FST.reconcile (tables regenerated each run: Pfst/Gen/ReconcileOptions.lean)
     'Pfst.C13.refused_pinned', 'Pfst.C13.pinned_refused', 'Pfst.C13.pinned_global', 'Pfst.C13.read_controlled',
+    # the retry-at-parent fallback over the refusal alphabet (Pfst/Gen/ReconcileCatch.lean)
+    'Pfst.C13.battery_caught', 'Pfst.C13.battery_retried', 'Pfst.C13.fallback_total', 'Pfst.C13.fallback_kind_independent',
+    'Pfst.C13.recNode_is_fallbackStep',
 ]
 RULE = ('corpus programs (snippets covering every node type, generated programs, layout / comment / parenthesis variants, '
         'stdlib chunks) are parsed to an FST, marked, and edited by 1-3 pure-AST mutations per round for 1-3 mark/reconcile '
@@ -33,7 +36,10 @@ RULE = ('corpus programs (snippets covering every node type, generated programs,
         'replace / put_src wrapped at run time; traces are compared op for op (a real op that raised followed by the '
         'documented pure-AST retry at an ancestor covers the model ops below it and is counted as fallback). The same runs '
         'are judged by the oracle: result == ast.parse(result.src) with positions; ast.dump equality with the edited AST; '
-        'unchanged tree => identical source; untouched statements keep their text and trailing comment. '
+        'unchanged tree => identical source; untouched statements keep their text and trailing comment; ANY exception leaving '
+        'reconcile() on an edited AST that ast.unparse accepts is a failure (raised:<Type>). The edit kinds include scalar edits whose '
+        'direct put is refused (ImportFrom module/level, keyword.arg <-> None, Starred <-> plain Call argument, alias.asname, '
+        'ExceptHandler.name), which force the retry-at-parent fallback. '
         'CALLER OPTIONS: a slice of the same scripts is re-run inside `with FST.options(...)` (parse, mark, edits, reconcile) for every '
         'global option of FST.get_options() at each non-default value, one at a time, plus random combinations; the oracle must give '
         'the same verdicts, and for options reconcile() refuses as keywords ("managed during the process") the returned source must '
@@ -172,11 +178,59 @@ def _fstring_kwonly(tree):
     return False
 
 
+def _w_prim_inf(a, FST):
+    a.body[0].value.value = float('inf')
+
+
+def _w_level_dotted(a, FST):
+    a.body[0].level = 2
+
+
+def _w_trystar_handlers(a, FST):
+    a.body[1].handlers[:] = a.body[0].handlers                  # every handler of the TryStar replaced by handlers of a Try
+
+
+def _w_foreign_reordered(a, FST):
+    o = FST('[1, 2, 3, 4]', 'exec')
+    o.a.body[0].value.elts.reverse()                            # the user reorders the other tree's list ...
+    a.body[0].value.elts.append(o.a.body[0].value.elts[0])      # ... and takes its (new) first element
+    return o
+
+
+def _w_alias_dotted_space(a, FST):
+    a.body[0].names[0].asname = None
+
+
+def _w_kw_none(a, FST):
+    n = a.body[0]
+    (n.value if isinstance(n, ast.Assign) else n).keywords[0].arg = None
+
+
+def _w_nonstar_after_kw(a, FST):
+    a.body[1].value.args[0] = ast.Name('b', ast.Load())
+
+
+def _w_import_relative(a, FST):
+    a.body[1].module = None
+    a.body[1].level = 1
+
+
 # fixed scripts: minimal witnesses of findings whose shape the random generator is kept away from
 WITNESS = {
     'foreign_compare_intree': ('x = yy', _w_foreign_compare, 'Compare.comparators'),
     'swap_backslash_tuple': ('x = a \\\n   , b', _w_swap_backslash, 'Tuple.elts'),
     'nochange_fstring_kwonly': ("f'{ {1: lambda *, y: 1} }'", _w_nothing, '-'),
+    'prim_inf': ('x = 1.5', _w_prim_inf, 'Constant.value'),
+    'imp_level_dotted': ('from .a.b import c', _w_level_dotted, 'ImportFrom.level'),
+    'trystar_all_handlers': ('try:\n    pass\nexcept A:\n    pass\nexcept B:\n    pass\ntry:\n    pass\nexcept* C:\n    pass\n',
+                             _w_trystar_handlers, 'TryStar.handlers'),
+    'foreign_reordered': ('x = [0]', _w_foreign_reordered, 'List.elts'),
+    'alias_dotted_space': ('import p . q as r', _w_alias_dotted_space, 'Import.names'),
+    # edits whose direct put is refused with ValueError: must come out of the retry at the parent (no finding: regression scripts)
+    'retry_kw_none_call': ('r = f(a=b, *c)\n', _w_kw_none, 'Call.keywords'),
+    'retry_kw_none_class': ('class C(m=M, *B):\n    pass\n', _w_kw_none, 'ClassDef.keywords'),
+    'retry_nonstar_after_kw': ('pre = 0  # first\nr = f(x=1, *a)\npost = 2  # last\n', _w_nonstar_after_kw, 'Call.args'),
+    'retry_import_relative': ('x = 1  # first\nfrom a import b\ny = 2  # last\n', _w_import_relative, 'ImportFrom.module'),
     'move_multiline_op': ('x = a < b\ny = (a not\n  in b)', _w_move_multiline_op, 'Compare.ops'),
     'global_backslash_del': ('global g1,  \\\n  g2', _w_global_backslash_del, 'Global.names'),
 }
@@ -339,11 +393,6 @@ def _run_case_inner(arg):
         L.RECORDER.begin()
         try:
             o = f.reconcile()
-        except NotImplementedError as e:
-            R['refused'] = 'NotImplementedError: ' + str(e)[:80]
-            R['real'] = list(L.RECORDER.log)
-            L.RECORDER.end()
-            return res
         except RecursionError:
             res['skip'] = 'recursion'
             L.RECORDER.end()
@@ -501,6 +550,8 @@ def _judge(ctx, results, name='reconcile trace vs Pfst.Reconcile.reconcile', sea
             detail = 'model predicts an escaping NotImplementedError'
         elif 'refused' in R or 'raised' in R:
             st, detail = 'real-raised', None
+        elif res['mode'] in WITNESS and R.get('fails'):
+            st, detail = 'witness-of-a-finding', None     # the real run is the recorded defect; its trace is not the model's
         else:
             st, detail = L.compare_traces(mops, real, msrcs)
         ctx.tally('trace_status', st)
@@ -655,6 +706,95 @@ def _probe_options(_=None):
             'read_other': sorted(x for x in log if x not in glob), 'rounds': n}
 
 
+# ---- the refusal alphabet of the put layer and the exception tuple of the retry-at-parent handler ---------------------------
+
+def _battery():
+    """direct puts that the put layer refuses although the edited AST is valid: (name, thunk)"""
+    from fst import FST
+    N = lambda i: ast.Name(i, ast.Load())
+    return [
+        ('ImportFrom.module deleted at level 0', lambda: FST('from a import b').put(None, field='module')),
+        ('non-Starred arg after a keyword', lambda: FST('f(x=1, *a)').put(N('b'), 0, field='args')),
+        ('keyword.arg deleted before a Starred', lambda: FST('f(a=b, *c)').keywords[0].put(None, field='arg')),
+        ('required child deleted', lambda: FST('x = 1').put(None, field='value')),
+        ('statement source for an expression', lambda: FST('x = 1').put('pass', field='value')),
+        ('source that does not parse', lambda: FST('x = 1').put('1 +', field='value')),
+        ('node of the wrong category', lambda: FST('x = 1').put(ast.Pass(), field='value')),
+        ('negative Constant.value', lambda: FST('x = 1').value.put(-1, field='value')),
+        ('star alias among several aliases', lambda: FST('from a import b, c').put('*', 0, field='names')),
+        ('Constant.value inside an f-string', lambda: FST("f'a{b}'").values[0].put('z', field='value')),
+    ]
+
+
+def _probe_catch(_=None):
+    """Runs in a forked child.  (a) `caught`: the exception tuple of the handler around `self.recurse_children(...)` in
+    Reconcile.recurse_node, read from the source of the imported module; (b) `battery`: the class (with its MRO) each refused
+    direct put of _battery() raises; (c) `retried`: for each of those classes, Reconcile.recurse_children is made to raise an
+    instance once below an in-tree node: does reconcile() still return the edited tree (retry at the parent)?"""
+    import inspect
+    from fst import FST
+    from fst import reconcile as RC
+    tree = ast.parse(inspect.getsource(RC))
+    caught = []
+    for cls in [n for n in tree.body if isinstance(n, ast.ClassDef) and n.name == 'Reconcile']:
+        for fn in [n for n in cls.body if isinstance(n, ast.FunctionDef) and n.name == 'recurse_node']:
+            for t in [n for n in ast.walk(fn) if isinstance(n, ast.Try)]:
+                if any(isinstance(c, ast.Call) and isinstance(c.func, ast.Attribute) and c.func.attr == 'recurse_children'
+                       for b in t.body for c in ast.walk(b)):
+                    for h in t.handlers:
+                        ts = h.type.elts if isinstance(h.type, ast.Tuple) else [h.type] if h.type is not None else []
+                        caught += [ast.unparse(x) for x in ts]
+    battery = []
+    classes = {}
+    for name, thunk in _battery():
+        try:
+            thunk()
+            battery.append([name, '', []])
+        except Exception as e:
+            c = type(e)
+            classes[c.__name__] = c
+            battery.append([name, c.__name__, [k.__name__ for k in c.__mro__ if k not in (object, BaseException, Exception)]])
+    retried = []
+    orig = RC.Reconcile.recurse_children
+    for cname, c in sorted(classes.items()):
+        fired = []
+
+        def rc(self, node, outa, c=c):
+            if isinstance(node, ast.BinOp) and not fired:
+                fired.append(1)
+                raise c('refusal injected by the C13 harness')
+            return orig(self, node, outa)
+
+        RC.Reconcile.recurse_children = rc
+        ok = False
+        try:
+            f = FST('x = a + b  # c\ny = 2', 'exec')
+            f.mark()
+            f.a.body[0].value.right = ast.Name('z', ast.Load())
+            want = L.norm_dump(f.a)
+            o = f.reconcile()
+            ok = bool(fired) and util.tree_equals_parse(o) is None and L.norm_dump(o.a) == want
+        except Exception:
+            ok = False
+        finally:
+            RC.Reconcile.recurse_children = orig
+        retried.append([cname, ok])
+    return {'caught': caught, 'battery': battery, 'retried': retried}
+
+
+_CATCH = None
+
+
+def _catch_tables():
+    global _CATCH
+    if _CATCH is None:
+        r = L.fork_map(_probe_catch, [None], nchunks=1)[0]
+        if 'crash' in r:
+            raise RuntimeError('catch probe failed: ' + r['crash'])
+        _CATCH = r
+    return _CATCH
+
+
 _OPT = None
 
 
@@ -693,6 +833,22 @@ def extract(ctx):
            'end Pfst.Gen.ReconcileOptions\n')
     framework.write_if_changed(framework.LEAN / 'Pfst' / 'Gen' / 'ReconcileOptions.lean', txt)
     ctx.notes['reconcile_option_tables'] = t
+    c = _catch_tables()
+    q = lambda x: '"' + x.replace('\\', '\\\\').replace('"', '\\"') + '"'
+    txt = ('-- GENERATED by harness/props/C13.py (extract) from the imported /repo modules; do not edit\n'
+           'namespace Pfst.Gen.ReconcileCatch\n\n'
+           '/-- the exception tuple of the handler around `self.recurse_children(node, outa)` in `Reconcile.recurse_node` -/\n'
+           f'def caught : List String := {_lean_strs(c["caught"])}\n\n'
+           '/-- refused direct puts (valid edited AST, put not available "in this state / at this location"): scenario, class raised,\n'
+           'its MRO below `Exception` -/\n'
+           'def battery : List (String × String × List String) := [\n  '
+           + ',\n  '.join(f'({q(n)}, {q(k)}, {_lean_strs(m)})' for n, k, m in c['battery']) + ']\n\n'
+           '/-- each class of the battery injected once below an in-tree node: did `reconcile()` return the edited tree? -/\n'
+           'def retried : List (String × Bool) := ['
+           + ', '.join(f'({q(k)}, {"true" if r else "false"})' for k, r in c['retried']) + ']\n\n'
+           'end Pfst.Gen.ReconcileCatch\n')
+    framework.write_if_changed(framework.LEAN / 'Pfst' / 'Gen' / 'ReconcileCatch.lean', txt)
+    ctx.notes['reconcile_catch_tables'] = c
 
 
 def _env_cases(ctx, progs, per_env, ncombos):
